@@ -43,7 +43,7 @@ def plan(tier, seed):
     shards = [{"kind": "undisturbed", "lengths": lengths[i::8], "cs": seed * 100 + i} for i in range(8)]
     for i, (n, blk) in enumerate(fault_sets):
         for crc in (True, False):
-            shards.append({"kind": "fault", "n": n, "blk": blk, "crc": crc, "cs": seed * 100 + 50 + i})
+            shards.append({"kind": "fault", "n": n, "blk": blk, "crc": crc, "size_ind": (i + int(crc)) % 2 == 0, "cs": seed * 100 + 50 + i})
     return shards
 
 
@@ -97,17 +97,17 @@ def run_undisturbed(ctx, desc):
     for n in desc["lengths"]:
         for blk in (127, 1, 2, 7, 64, rng.randint(3, 126)):
             for crc_req, crc_sup in ((True, True), (False, True), (True, False)):
-                c = {"kind": "undisturbed", "n": n, "blk": blk, "crc": crc_req, "crc_support": crc_sup,
+                c = {"kind": "undisturbed", "n": n, "blk": blk, "crc": crc_req, "crc_support": crc_sup, "size_ind": rng.random() < 0.6,
                      "style": rng.choice(["all", "all", "raw", "chunks"]), "seed": rng.randint(0, 1 << 30),
                      "mux": [rng.choice([0x1F50, 0x2000, 0xFFFF]), rng.choice([0, 1, 255])]}
                 run_undisturbed_case(ctx, c)
 
 
 def run_undisturbed_case(ctx, c):
-    rig = rigs.ClientRig(node_id=9, timeout=0.004, crc_support=c["crc_support"])
+    rig = rigs.ClientRig(node_id=9, timeout=0.004, crc_support=c["crc_support"], block_upload_size_indicated=c.get("size_ind", True))
     value = payload(c["n"], c["seed"])
     rig.server.store[tuple(c["mux"])] = value
-    ctx.case((c["kind"], lenclass(c["n"]), c["blk"] if c["blk"] in (1, 2, 7, 64, 127) else "rand", c["crc"] and c["crc_support"], c["style"]),
+    ctx.case((c["kind"], lenclass(c["n"]), c["blk"] if c["blk"] in (1, 2, 7, 64, 127) else "rand", c["crc"] and c["crc_support"], c["style"], c.get("size_ind", True)),
              nontrivial=c["n"] > 7)
     try:
         got = do_block_upload(rig, c)
@@ -133,7 +133,8 @@ def run_faults(ctx, desc):
     n, blk, crc = desc["n"], desc["blk"], desc["crc"]
     rng = random.Random(repr(("c13f", desc["cs"])))
     nseg = -(-n // 7)
-    c0 = {"n": n, "blk": blk, "crc": crc, "crc_support": True, "mux": [0x1F50, 1], "seed": desc["cs"], "style": "all"}
+    c0 = {"n": n, "blk": blk, "crc": crc, "crc_support": True, "mux": [0x1F50, 1], "seed": desc["cs"], "style": "all",
+          "size_ind": desc.get("size_ind", True)}
     value = payload(n, c0["seed"])
 
     def seg_pred(rig):
@@ -146,7 +147,7 @@ def run_faults(ctx, desc):
         return lambda f: f.src == "refserver" and f.can_id == rig.tx and f.data[0] & 0xE3 == 0xC2
 
     def one(c, plan_factory):
-        rig = rigs.ClientRig(node_id=9, timeout=0.003, crc_support=True)
+        rig = rigs.ClientRig(node_id=9, timeout=0.003, crc_support=True, block_upload_size_indicated=desc.get("size_ind", True))
         rig.server.store[tuple(c["mux"])] = value
         rig.bus.fault = plan_factory(rig)
         exc, got = None, None
@@ -179,7 +180,7 @@ def run_faults(ctx, desc):
 
     for k in range(nseg):
         c = dict(c0, kind="lost-segment", k=k)
-        ctx.case((c["kind"], lenclass(n), blk, crc, posclass(k)))
+        ctx.case((c["kind"], lenclass(n), blk, crc, posclass(k), desc.get("size_ind", True)))
         one(c, lambda rig, k=k: faults.OneShot(seg_pred(rig), k, faults.drop))
         byte, bit = rng.randint(1, 7), rng.randint(0, 7)
         if k == nseg - 1 and n % 7:
@@ -222,4 +223,4 @@ def replay(ctx, case):
     if case["kind"] == "undisturbed":
         run_undisturbed_case(ctx, case)
     else:
-        run_faults(ctx, {"n": case["n"], "blk": case["blk"], "crc": case["crc"], "cs": case["seed"]})
+        run_faults(ctx, {"n": case["n"], "blk": case["blk"], "crc": case["crc"], "cs": case["seed"], "size_ind": case.get("size_ind", True)})
